@@ -1,7 +1,7 @@
 SPECIFICATION Spec
 CONSTANTS
   NTok = 3
-  MaxL = 1
+  MaxL = 2
   MaxR = 1
   Meas = "COSINE"
   AllowEmpty = TRUE
